@@ -348,7 +348,7 @@ Proof.
   { apply IH. intros T HT. apply H. unfold all_changes in *. simpl. apply in_or_app. right. assumption. }
   simpl. destruct tl as [|c1 [|c2 [|c3 rest]]]; try reflexivity.
   rewrite modifyUsingTemp_none.
-  - rewrite Htl. reflexivity.
+  - rewrite Htl. destruct (sc_changes c1); reflexivity.
   - intros T HT. apply H. unfold all_changes. simpl. apply in_or_app. left. assumption.
 Qed.
 
